@@ -482,7 +482,7 @@ func init() {
 				is = append(is, eng.Instance{Name: fmt.Sprintf("C03/Map/par12/%s||%s;%s", mapOps[t[0]], mapOps[t[1]], mapOps[t[2]]), Pkg: "xsync", Func: "VxH_Map_par12",
 					Args: []int64{int64(t[0]), int64(t[1]), int64(t[2]), 1, 1, 1, 1}, Cfg: parCfgShrinkReq(2)})
 			}
-			is = append(is, resizePar("C03/Map", false, 0, []int{0, 1, 5, 7}, 1, 1, 2)...)
+			is = append(is, resizePar("C03/Map", false, 0, []int{0, 1, 7}, 1, 1, 2)...) // resize-first grow||Compute/pre1: > 60 min (queries time out, splitting), not registered
 			is = append(is, resizeParO("C03/Map", false, 0, []int{0, 1, 5, 7, 8}, 1, 1, 2, 1)...)
 			is = append(is, resizePar("C03/Map", false, 1, []int{1}, 2, 0, 2)...)
 			return is
